@@ -629,6 +629,25 @@ pub fn gen(thorough: bool, seed: u64, out: &mut impl Write) {
             let sg2 = format!("S/~/{}/{}", u, hex(b64url(&toy_mac(7, &si2)).as_bytes()));
             writeln!(out, "C01 flat {} {} {} k:7:- ", plm, sg2, det.as_ref().map(|d| hex(d)).unwrap_or("~".into())).unwrap();
           }
+          // white space around a JSON member (payload, protected, signature): the member is used exactly as received, so a
+          // padded base64url member is no base64url, and a padded unencoded payload is another payload than the signed one
+          if !emb.is_empty() && (placement == "attached" || placement == "both") {
+            for (pre, post) in [(" ", ""), ("", " "), (" ", " "), ("\n", ""), ("", "\n"), ("\t", "\r\n")] {
+              let wrap = |b: &[u8]| -> String {
+                let mut v = pre.as_bytes().to_vec();
+                v.extend_from_slice(b);
+                v.extend_from_slice(post.as_bytes());
+                hex(&v)
+              };
+              let sg = format!("S/{}/_/{}", hex(seg0.as_bytes()), hex(sig.as_bytes()));
+              writeln!(out, "C01 flat {} {} {} k:7:- {}", wrap(&emb), sg, det.as_ref().map(|d| hex(d)).unwrap_or("~".into()), ptab(&[hj.clone()])).unwrap();
+              let sgp = format!("S/{}/_/{}", wrap(seg0.as_bytes()), hex(sig.as_bytes()));
+              writeln!(out, "C01 flat {} {} {} k:7:- {}", hex(&emb), sgp, det.as_ref().map(|d| hex(d)).unwrap_or("~".into()), ptab(&[hj.clone()])).unwrap();
+              let sgs = format!("S/{}/_/{}", hex(seg0.as_bytes()), wrap(sig.as_bytes()));
+              writeln!(out, "C01 flat {} {} {} k:7:- {}", hex(&emb), sgs, det.as_ref().map(|d| hex(d)).unwrap_or("~".into()), ptab(&[hj.clone()])).unwrap();
+              writeln!(out, "C01 general {} {} k:7:- 2 {} {} {}", wrap(&emb), det.as_ref().map(|d| hex(d)).unwrap_or("~".into()), sg, sg, ptab(&[hj.clone()])).unwrap();
+            }
+          }
         }
       }
     }
